@@ -62,6 +62,23 @@ DIRECTED = [
         _a("Mark"), _a("RestartMargin"), _a("RepublishByMargin", margin=M),
         _a("Pump"), _a("RestartNormal"), _a("ExpectByMargin", margin=M),
         _a("Settle")]},
+    # every kind of maintenance run once, due and not due, with route
+    # origins, a provider authorisation and a router key; operations while
+    # everything is due
+    {"mftdue": True, "objdue": True, "actions": [
+        _a("AddCa", c="B", p="A", res=["p1", "a1"]), _a("Settle"),
+        _a("RoaAdd", c="B", r=["p1", "a1"]),
+        _a("AspaSet", c="B", cust="a1", prov=["a2"]),
+        _a("RtrAdd", c="B", r=["a1", "rtr:k1"]), _a("Settle"),
+        _a("Mark"), _a("Renew"), _a("Pump"), _a("ExpectSame"),
+        _a("Mark"), _a("Republish"), _a("Pump"), _a("ExpectSame"),
+        _a("Mark"), _a("RestartDue"), _a("Renew"), _a("Pump"),
+        _a("RestartNormal"), _a("ExpectRenewed"),
+        _a("Mark"), _a("RestartDue"), _a("Republish"), _a("Pump"),
+        _a("RestartNormal"), _a("ExpectReissued"),
+        _a("RestartDue"), _a("ChildRes", c="B", p="A", res=["p1", "p2", "a1"]),
+        _a("Pump"), _a("RoaDel", c="B", r=["p1", "a1"]), _a("Pump"),
+        _a("RestartNormal"), _a("Settle")]},
 ]
 
 
